@@ -16,8 +16,11 @@ RULE = (
     "truth assignments: all (cap 48/128) incl. those with several simultaneously falsy contracts, invariants may flip between "
     "their before and after evaluation. Oracle: the model's exact event sequence (phases, inherited before own, stacked "
     "innermost first, group short-circuit, first-failure error identity; lambda conditions re-evaluated exactly once when "
-    "violated); diamonds compared modulo per-path repetitions. Non-trivial = at least two contracts falsy simultaneously; "
+    "violated); a contract that reaches a function along several paths (diamonds) counts once. Non-trivial = at least two contracts falsy simultaneously; "
     "distinct = distinct (shape, kind, async, class called, truth vector)."
+    ' Fixed scenarios: constructor chain; a class created anew from its own namespace (type(cls)(...), dataclass(sl'
+    'ots=True)) and decorator objects shared by base and sub-class (ensure, invariant) - every contract once per ch'
+    'eck, inherited before own.'
 )
 ASSUMPTIONS = ["reference model encodes the order rules of the statement", "generator stays out of the C04 accept-all corner (mixed bases)"]
 
@@ -308,6 +311,20 @@ class Derived(Base):
         return HUB.body("Derived.g", {"x": x})
 
 
+shared_invariant = icontract.invariant(lambda self: HUB.inv("inv_shared", self))
+
+
+@shared_invariant
+class SBase(icontract.DBC):
+    def h(self, x):
+        return HUB.body("SBase.h", {"x": x})
+
+
+@shared_invariant
+class SDerived(SBase):
+    pass
+
+
 # the class created anew from its own namespace (what dataclasses.dataclass(slots=True), attrs and class decorators which
 # rebuild the class do): the functions in the namespace already carry the merged contracts
 Rebuilt = type(Derived)(Derived.__name__, Derived.__bases__, dict(Derived.__dict__))
@@ -336,7 +353,8 @@ def run_recreated(w) -> None:
         want_slotted = [("inv", "inv_base"), ("cond", "pre_base"), ("snap", "snap_base"), ("body", "Slotted.f"), ("cond", "post_base"), ("cond", "post_own"),
                         ("inv", "inv_base")]
         # (the order of the classes matters: Derived is called again after Rebuilt was created from its namespace)
-        for cname, member, want in (("Derived", "f", want_f), ("Rebuilt", "f", want_f), ("Derived", "g", want_g), ("Rebuilt", "g", want_g),
+        want_h = [("inv", "inv_shared"), ("body", "SBase.h"), ("inv", "inv_shared")]
+        for cname, member, want in (("SBase", "h", want_h), ("SDerived", "h", want_h), ("Derived", "f", want_f), ("Rebuilt", "f", want_f), ("Derived", "g", want_g), ("Rebuilt", "g", want_g),
                                     ("Slotted", "f", want_slotted)):
             obj = getattr(mod, cname)()
             hub.reset()
